@@ -232,7 +232,15 @@ def run_case(ctx, case):
             selected = {j: m[j] for j in (ids if ids is not None else m)}
             before = model.snapshot(prefix)
             with fsmon.Session([W], contain=[prefix]) as s:
-                ret, err = sig.exc_name(P.create_linked_view, prefix=prefix, job_ids=ids, path=path_arg(spec))
+                # the selection is documented as an iterable of ids: a list, or something that can be walked only once
+                ids_arg = ids
+                if ids is not None and sseed % 3 == 1:
+                    ids_arg = iter(list(ids))
+                elif ids is not None and sseed % 3 == 2:
+                    ids_arg = (i for i in list(ids))
+                if ids_arg is not ids:
+                    ctx.count("selection_given_as_one_shot_iterable")
+                ret, err = sig.exc_name(P.create_linked_view, prefix=prefix, job_ids=ids_arg, path=path_arg(spec))
             stray = [h for h in s.policy_hits if h[0] == "contain"]
             if stray:
                 viol("view-writes-outside-prefix", "create_linked_view wrote outside its prefix", {"hits": stray[:4]})
